@@ -233,5 +233,11 @@ m("C18", "C18-concat-clamps-range", "R18-lib:tableConcat:range-as-given", ("tabl
 m("C18", "C18-maxn-array-only", "R18-lib:tableMaxN:all-keys", ("tablelib.go", "\ttbl.ForEach(func(k, _ LValue) {\n\t\tif n, ok := k.(LNumber); ok && n > max {\n\t\t\tmax = n\n\t\t}\n\t})\n", ""))
 m("C18", "C18-remove-any-position", "R18-delegate:tableRemove:position-in-1..n", ("tablelib.go", "\tif pos < 1 || pos > n {\n\t\t// nothing to remove: no result\n\t\treturn 0\n\t}\n", "\tif n == 0 {\n\t\treturn 0\n\t}\n"))
 m("C18", "C18-remove-on-physical-array", "R18-delegate:Remove:shrinks-by-one", ("table.go", "\tlarray := tb.Len()\n\ttb.array = tb.array[:larray]\n", "\tlarray := len(tb.array)\n"), ("table.go", "\t\ttb.array[larray-1] = nil\n\t\ttb.array = tb.array[:larray-1]\n", "\t\ttb.array[larray-1] = LNil\n"))
+
+m("C09", "C09-next-vanished-array-key", "R09-owner:Next:vanished-array-key-starts-hash-part", ("table.go", "\t\t\t_, hashed := tb.k2i[key]\n\t\t\tif tb.array == nil || index == len(tb.array) || (index > len(tb.array) && !hashed) {", "\t\t\tif tb.array == nil || index == len(tb.array) {"))
+
+m("C01", "C01-forprep-no-string-conversion", "R01-forprep:OP_FORPREP:converts-string-control-values", ("vm.go", "\t\t\t// the control values may be strings that convert to numbers\n\t\t\tfor i := 0; i < 3; i++ {\n\t\t\t\tif str, ok := reg.Get(RA + i).(LString); ok {\n\t\t\t\t\tif num, err := parseNumber(string(str)); err == nil {\n\t\t\t\t\t\treg.Set(RA+i, num)\n\t\t\t\t\t}\n\t\t\t\t}\n\t\t\t}\n", ""))
+
+m("C06", "C06-host-body-ends-only-when-tailcalled", "ends-coroutine-for-any-last-host-frame", ("vm.go", "\tif L.Parent != nil && L.stack.Sp() == 1 {\n\t\t// the host function was the last frame", "\tif tailcall && L.Parent != nil && L.stack.Sp() == 1 {\n\t\t// the host function was the last frame"))
 if __name__ == "__main__":
     main()
